@@ -20,15 +20,19 @@ def queries(tier):
         ex.append(Q("exhaust_%s" % nm, "C06/exhaust.c", units=[u for u in UNITS if "type_traits" not in u], harness_defines={"KIND": kind, "NFULL": 0},
                     unwind_default=68, stubs=["libc.c", "libc_loops.c"], flags=["--max-field-sensitivity-array-size", "300"],
                     bounds="one %s registration from every fill level up to and including the exhausted range (64 ids)" % nm, outside="named registrations at these fill levels"))
+    ex.append(Q("alias_lookup", "C06/alias.c", units=UNITS + ["mptcore/types/alias_typeid.c"], unwind_default=40,
+                unwind={"strlen": 12, "strcmp": 12, "strncmp": 12, "memcpy": 30, "memset": 30, "memmove": 30, "strchr": 16, "strlen.0": 16, "strcmp.0": 16, "strncmp.0": 16, "strchr.0": 16},
+                stubs=["libc.c", "libc_loops.c"], flags=["--max-field-sensitivity-array-size", "300"],
+                bounds="alias text 'logger' + 0..2 blanks/tabs + optional ':' + 0..2 blanks/tabs + symbol (all symbolic choices)", outside="other names; longer blank runs"))
     return ex + [
         Q("builtin_lookup", "C06/builtin.c", unwind_default=40, unwind={"strlen": 12, "strcmp": 12, "strncmp": 12, "memcpy": 30, "memset": 30, "memmove": 30},
           bounds="every id 0..0x1100 on the fresh registry", outside="registry states after registrations (register query)", **common),
     ] + [
         Q("register_%d%d_n%d%d" % (o1, o2, n1, n2), "C06/register.c", harness_defines={"K": 2, "OPS": "{%d,%d}" % (o1, o2), "NAMEIDX": "{%d,%d}" % (n1, n2)}, unwind_default=20,
           unwind={"strlen": 12, "strcmp": 12, "strncmp": 12, "harness": 4, "memcpy": 30, "memset": 30, "memmove": 30},
-          bounds="two registrations of kinds (%d,%d) [0 basic (size 0..40 symbolic), 1 generic, 2 interface, 3 metatype] with names (%d,%d) from [solve, beta_, abc], each followed by id and name lookups" % (o1, o2, n1, n2),
+          bounds="two registrations of kinds (%d,%d) [0 basic (size 0..40 symbolic), 1 generic, 2 interface, 3 metatype] with names (%d,%d) from [solve, beta_, abc, object (a built-in interface name; interface registrations only)], each followed by id and name lookups" % (o1, o2, n1, n2),
           outside="other kind/name sequences; capacity exhaustion of a range", timeout=400, regions=["C06_NAME_CROSS_KIND"],
           no_main=(o1 >= 2 and o2 >= 2 and o1 != o2 and n1 == n2 and n1 != 2), **common)
-        for (o1, o2, n1, n2) in ([(2, 2, 0, 0), (2, 2, 0, 1), (3, 3, 1, 1), (3, 3, 0, 1), (0, 1, 0, 0), (2, 3, 0, 2), (3, 2, 0, 0)] if tier == "quick" else
+        for (o1, o2, n1, n2) in ([(2, 2, 0, 0), (2, 2, 0, 1), (3, 3, 1, 1), (3, 3, 0, 1), (0, 1, 0, 0), (2, 3, 0, 2), (3, 2, 0, 0), (2, 2, 3, 0), (2, 2, 0, 3)] if tier == "quick" else
                                  [(a, b, c, d) for a in range(4) for b in range(4) for c in range(3) for d in range(3) if (a >= 2 or c == 0) and (b >= 2 or d == 0)])
     ]
